@@ -151,6 +151,8 @@ impl TriMesh {
         Triangle3 { a: self.verts()[self.faces()[i][0] as int], b: self.verts()[self.faces()[i][1] as int], c: self.verts()[self.faces()[i][2] as int] }
     }
     #[verifier::external_body]
+    pub fn vertices(&self) -> (r: &[Point3]) ensures r@ == self.verts() { unimplemented!() }
+    #[verifier::external_body]
     pub fn indices(&self) -> (r: &[[u32; 3]]) ensures r@ == self.faces() { unimplemented!() }
     #[verifier::external_body]
     pub fn triangle(&self, i: u32) -> (r: Triangle3)
